@@ -8,6 +8,10 @@ import (
 	"github.com/frobnitzem/go-p9p/zzverif/explore"
 )
 
+// HistoryReplayers re-executes an operation history (engine B artefacts)
+// on a fresh implementation instance and returns the oracle's findings.
+var HistoryReplayers = map[string]func(raw []byte) ([]explore.Finding, error){}
+
 // Replayers maps a property to a function re-running a recorded case.
 var Replayers = map[string]func(doc map[string]any) int{}
 
@@ -52,6 +56,31 @@ func ReplayFile(prop, path string) int {
 				return 1
 			}
 			return 0
+		}
+	}
+	if rp != nil {
+		if h, ok := rp["history"]; ok {
+			if f := HistoryReplayers[prop]; f != nil {
+				raw, _ := json.Marshal(h)
+				findings, err := f(raw)
+				if err != nil {
+					fmt.Println("cannot replay:", err)
+					return 2
+				}
+				if hs, ok := rp["history_text"].([]any); ok {
+					for i, l := range hs {
+						fmt.Printf("  step %d: %v\n", i+1, l)
+					}
+				}
+				for _, fd := range findings {
+					fmt.Printf("FINDING %s: %s\n", fd.Sig, fd.Msg)
+				}
+				if len(findings) > 0 {
+					return 1
+				}
+				fmt.Println("the history no longer violates the property")
+				return 0
+			}
 		}
 	}
 	if f := Replayers[prop]; f != nil {
